@@ -224,20 +224,32 @@ def rule_P(ctx):
     f = ctx.prog.func(TRACK + '.sort')
     w = Walker(f, loop_mode='once')
     outs = [o for o in w.run(body_nodocstring(f), State())]
+    if len(outs) != 1:
+        raise shape_error('Track.sort: expected one path', f.loc())
     o = outs[0]
-    loops = [e for e in o.state.events if e.kind == 'loop']
-    apps = [e for e in o.state.events if e.kind == 'call' and e.name == 'append']
     stores = [e for e in o.state.events if e.kind == 'store' and 'POINTS' in str(e.index)]
-    ok = len(loops) == 1 and len(apps) == 1 and len(stores) == 1
-    wit = {}
-    if ok:
-        r = loops[0].value.get('range')
-        iv = loops[0].value['node'].target.id
-        a = vr(apps[0].args[0])
-        wit = {'appended': a, 'range': [vr(x) for x in r] if r else None}
-        m = re.match(r'^self\.__POINTS\[(.+)\[%s\]\]$' % iv, a)
-        ok = r is not None and vr(r[0]) == '0' and vr(r[1]) == 'self.size()' and m is not None and 'argsort' in m.group(1) and \
-            'self.getTimestamps()' in m.group(1)
+    if len(stores) != 1:
+        raise shape_error('Track.sort: the store of the sorted list not found', f.loc())
+    # the list stored: built by appends in a range loop, or by a comprehension
+    built = None
+    comps = [n for n in ast.walk(f.node) if isinstance(n, (ast.ListComp, ast.GeneratorExp))]
+    apps = [e for e in o.state.events if e.kind == 'call' and e.name == 'append' and e.loops]
+    if len(comps) == 1 and not apps:
+        ci = w.comp_info(comps[0], o.state)
+        if ci is not None and not ci['ifs']:
+            built = (ci['range'], ci['var'], ci['elt'])
+    elif len(apps) == 1 and not comps:
+        lp = apps[0].loops[-1]
+        if lp['kind'] == 'for' and isinstance(lp['node'].target, ast.Name) and not apps[0].conds:
+            built = (lp.get('range'), lp['node'].target.id, apps[0].args[0])
+    if built is None:
+        raise shape_error('Track.sort: construction of the sorted list not understood', f.loc())
+    r, iv, elt = built
+    a = vr(elt)
+    wit = {'element i of the new list': a, 'range': [vr(x) for x in r] if r else None}
+    m = re.match(r'^self\.__POINTS\[(.+)\[%s\]\]$' % iv, a)
+    ok = r is not None and vr(r[0]) == '0' and vr(r[1]) in ('self.size()', 'len(self)', 'len(self.__POINTS)') and vr(r[2]) == '1' and m is not None and \
+        m.group(1).startswith('np.argsort(') and 'self.getTimestamps()' in m.group(1)
     ctx.check(bool(ok), 'C04.P', f, 'the sorted list is [P[idx[i]] for every i] with idx an argsort of this track\'s timestamps: a permutation of the same observations',
               witness=wit, node=f.node, key='perm')
 
